@@ -69,6 +69,10 @@ def cases(rng, tier):
         out.append({"f": "where", "lens": lens, "mask": _rand_mask(rng, lens), "y": "ragged", "dtype": dt(), "ydtype": dt(), "vseed": vs})
         for f in ("subset", "mask_index"):
             out.append({"f": f, "lens": lens, "mask": _rand_mask(rng, lens), "dtype": dt(), "vseed": vs})
+        # a mask OBJECT with a history: it selected once while it held another pattern, was then changed in place (&=, |=, ^=,
+        # logical_not(out=), item assignment, fill) to the pattern of the case, and selects again
+        out.append({"f": rng.choice(["subset", "mask_index", "mask_index"]), "lens": lens, "mask": _rand_mask(rng, lens), "dtype": dt(), "vseed": vs,
+                    "mh": rng.choice(["iand", "ior", "ixor", "not_out", "setitem", "copyto"])})
         # the same functions on an operand that is a block of rows of a larger array
         emb = [[rng.randint(0, 3) for _ in range(rng.randint(1, 2))], [rng.randint(0, 3) for _ in range(rng.randint(0, 2))]]
         fe = rng.choice(["subset", "mask_index", "mask_index", "where", "padded", "ragged_slice", "like"])
@@ -222,6 +226,8 @@ def run_impl(p):
                     return {"k": "obs", "idx": canon([[int(x) for x in r[0]], [int(x) for x in r[1]]]),
                             "index_dtypes": canon([str(np.asarray(r[0]).dtype), str(np.asarray(r[1]).dtype)])}
                 m = RaggedArray(mflat, list(p["lens"]))
+                if p.get("mh") and mflat.size:
+                    m = _mask_with_history(p, ra, mflat)
                 if f == "where":
                     y = RaggedArray(s[n:2 * n].copy(), list(p["lens"])) if p["y"] == "ragged" else s[2 * n].item()
                     if "ydtype" in p:
@@ -259,6 +265,32 @@ def run_impl(p):
                     kw["side"] = p["side"]
                 return ra.as_padded_matrix(**kw)
     return guarded(g)
+
+
+def _mask_with_history(p, ra, mflat):
+    """a mask object that held another pattern, selected with it, and was changed IN PLACE to the pattern mflat"""
+    from npstructures import RaggedArray
+    how = p["mh"]
+    extra = np.array([(i * 7 + p["vseed"]) % 3 == 0 for i in range(mflat.size)], dtype=bool)
+    lens = list(p["lens"])
+    old = {"iand": mflat | extra, "ior": mflat & extra, "ixor": mflat ^ extra, "not_out": ~mflat}.get(how, extra)
+    m = RaggedArray(old.copy(), lens)
+    ra[m]; ra.subset(m)
+    if how == "iand":
+        m &= RaggedArray(mflat.copy(), lens)
+    elif how == "ior":
+        m |= RaggedArray(mflat.copy(), lens)
+    elif how == "ixor":
+        m ^= RaggedArray(extra.copy(), lens)
+    elif how == "not_out":
+        np.logical_not(m, out=m)
+    elif how == "setitem":
+        m[...] = RaggedArray(mflat.copy(), lens)
+    else:
+        m.ravel()[...] = mflat
+    if np.asarray(m.ravel()).tolist() != mflat.tolist():
+        raise engine.Inconsistent("the in-place change of the mask did not produce the intended pattern")
+    return m
 
 
 def _window(r, s, e):
